@@ -21,17 +21,17 @@ GRID = 1 << GRID_BITS
 class Stats:
     def __init__(self):
         self.queries = 0; self.unsat = 0; self.sat = 0; self.unknown = 0; self.trivial_zero = 0
-        self.solver_s = 0.0; self.nonlinear = 0; self.samples = []
+        self.solver_s = 0.0; self.nonlinear = 0; self.samples = []; self.rounded_away = 0
 
     def add(self, o):
-        for k in ('queries', 'unsat', 'sat', 'unknown', 'trivial_zero', 'nonlinear'):
+        for k in ('queries', 'unsat', 'sat', 'unknown', 'trivial_zero', 'nonlinear', 'rounded_away'):
             setattr(self, k, getattr(self, k) + getattr(o, k))
         self.solver_s += o.solver_s
         self.samples.extend(o.samples[:max(0, 3 - len(self.samples))])
 
     def as_dict(self):
         return dict(queries=self.queries, unsat=self.unsat, sat=self.sat, unknown=self.unknown,
-                    trivial_zero=self.trivial_zero, nonlinear=self.nonlinear, solver_s=round(self.solver_s, 3))
+                    trivial_zero=self.trivial_zero, nonlinear=self.nonlinear, rounded_away=self.rounded_away, solver_s=round(self.solver_s, 3))
 
 
 class Solver:
@@ -216,13 +216,18 @@ class Solver:
         if scaled is not None and not scaled and eps < tau:
             # everything was below the grid: |d| <= eps < tau on the boxes (rounding lemma), no solver call needed
             st.queries += 1; st.unsat += 1
-            st.rounded_away = getattr(st, 'rounded_away', 0) + 1
+            st.rounded_away += 1
             return 'unsat', None
         t0 = time.time()
         st.queries += 1
         lin = d.is_linear()
         if not lin:
             st.nonlinear += 1
+            if not with_defs and not self.path and self._relax_unsat(d, tau):
+                # sound linear relaxation: every monomial replaced by an independent variable ranging over its interval bound
+                st.unsat += 1; st.rounded_away += 1
+                st.solver_s += time.time() - t0
+                return 'unsat', None
             if not with_defs and not self.path:
                 # nlsat can spend unbounded time looking for a model of a dense multivariate polynomial: first let the
                 # solver decide the query restricted to a few lines through the box (a model there is a model of the query)
@@ -292,6 +297,10 @@ class Solver:
     def auto_bounds(self, atoms, floor=None):
         """interval bounds for sqrt / inv atoms from the boxes of the atoms they are defined over.
         floor: lower bound of every sqrt atom (e.g. the magnitude bias b, justified by r = sqrt(sum of squares + b^2))"""
+        if floor is not None:
+            self.sqrt_floor = Fraction(floor)
+        floor = getattr(self, 'sqrt_floor', None)
+
         def ub(p):
             s = Fraction(0)
             for k, c in p.t.items():
@@ -352,6 +361,23 @@ class Solver:
             else:
                 break
         return 'sat', model
+
+    def _relax_unsat(self, d, tau):
+        """monomial-wise interval bound of |d| over the boxes, in exact rational arithmetic (the same principle as the rounding
+        lemma, applied to whole monomials); the final comparison is discharged by z3 as a ground assertion.
+        True => |d| <= tau on the boxes."""
+        U = Fraction(0)
+        for k, c in d.t.items():
+            m_ = abs(c)
+            for a in k:
+                b = self.bound(a)
+                if b is None or b[0] is None or b[1] is None:
+                    return False
+                m_ *= max(abs(b[0]), abs(b[1]))
+            U += m_
+        sv = z3.Solver()
+        sv.add(z3.RealVal(U) > z3.RealVal(Fraction(tau)))
+        return str(sv.check()) == 'unsat'
 
     def _line_search(self, d, tau, tries=6):
         import random
